@@ -460,7 +460,7 @@ def run(model, rep, tier):
 
 WITNESSES = [
     {"id": "c05-hinfo-no-maxlength", "rule": "R-05.1", "file": "dns/rdtypes/ANY/HINFO.py", "expect": "fires",
-     "old": "self.cpu = self._as_bytes(cpu, True, 255)", "new": "self.cpu = self._as_bytes(cpu, True)"},
+     "old": "self.cpu: bytes = self._as_bytes(cpu, True, 255)", "new": "self.cpu: bytes = self._as_bytes(cpu, True)"},
     {"id": "c05-srv-port-unvalidated", "rule": "R-05.1", "file": "dns/rdtypes/IN/SRV.py", "expect": "fires",
      "old": "self.port = self._as_uint16(port)", "new": "self.port = self._as_int(port)"},
     {"id": "c05-new-decode-in-producer", "rule": "R-05.1t", "file": "dns/rdtypes/ANY/X25.py", "expect": "fires",
